@@ -21,8 +21,8 @@ pub fn def() -> CheckDef {
     CheckDef {
         id: "C16",
         level: "exploration",
-        runs_quick: 120_000,
-        runs_thorough: 2_500_000,
+        runs_quick: 250_000,
+        runs_thorough: 5_000_000,
         rule: "seeded interleavings: history h1 on an instance, clone at a seeded point (mid-block for byte-level types), then operations on original and clone interleaved operation by operation by the scheduler; or two unrelated instances (different key/IV) interleaved; compared with sequential replays on fresh instances. All cloneable public types (12 block-mode types, 7 byte-stream aliases and cores, BufEncryptor/BufDecryptor); BeltCtr/BeltCtrCore (not Clone) only as unrelated instances. distinct = distinct (type, block size, cipher, width, clone point, interleaving pattern, op forms); non-trivial = >= 1 data op on each actor after the clone",
         required_probes: &["clone_mid_block", "ctr_core_clone", "three_alternations", "unrelated_instances", "buf_clone", "belt_unrelated"],
         r#gen,
